@@ -23,12 +23,13 @@ func UnsetTombstone(shardPath string, repoID uint32) error {
 
 func setTombstone(shardPath string, repoID uint32, tombstone bool) error {
 	var repos []*zoekt.Repository
+	var md *zoekt.IndexMetadata
 	var err error
 
 	if mockRepos != nil {
 		repos = mockRepos
 	} else {
-		repos, _, err = ReadMetadataPath(shardPath)
+		repos, md, err = ReadMetadataPath(shardPath)
 		if err != nil {
 			return err
 		}
@@ -40,7 +41,14 @@ func setTombstone(shardPath string, repoID uint32, tombstone bool) error {
 		}
 	}
 
-	tempPath, finalPath, err := JsonMarshalRepoMetaTemp(shardPath, repos)
+	// The .meta file of a compound shard is a list of repositories, that of a
+	// simple shard (format version 16) a single repository.
+	var meta any = repos
+	if md != nil && md.IndexFormatVersion < 17 && len(repos) == 1 {
+		meta = repos[0]
+	}
+
+	tempPath, finalPath, err := JsonMarshalRepoMetaTemp(shardPath, meta)
 	if err != nil {
 		return err
 	}
